@@ -19,6 +19,7 @@ def main(run):
     run.prove(extra_targets=["proofs/Pinned_comm.vo"])
     model_ok = run.build_model()
     run.run_findings()
+    run.pylite(['config'])
     if model_ok:
         cs = c07_cases(run, adversarial=True, count=70 if not run.thorough else 800)
         for c in cs:
